@@ -40,6 +40,14 @@ impl LeafCache {
     pub fn get(&self, page_number: PageNumber) -> Option<Arc<LeafNode>> {
         let mut shard = self.inner.shard_for(page_number);
 
+        #[cfg(nomt_verif)]
+        verif::observe(
+            verif::Kind::Get,
+            self.inner.shard_index_for(page_number),
+            page_number.0,
+            shard.cache.peek(&page_number).map(|n| &n.inner[..]),
+        );
+
         shard.cache.get(&page_number).map(|x| x.clone())
     }
 
@@ -52,8 +60,15 @@ impl LeafCache {
 
     /// Evict all excess items from the cache.
     pub fn evict(&self) {
+        #[cfg(nomt_verif)]
+        let mut verif_index = 0usize;
         for shard in &self.inner.shards {
             let mut shard = shard.lock();
+            #[cfg(nomt_verif)]
+            {
+                verif::observe(verif::Kind::Evict, verif_index, shard.max_items as u32, None);
+                verif_index += 1;
+            }
             while shard.cache.len() > shard.max_items {
                 let _ = shard.cache.pop_lru();
             }
@@ -79,4 +94,117 @@ impl Shared {
 struct Shard {
     cache: LruCache<PageNumber, Arc<LeafNode>>,
     max_items: usize,
+}
+
+/// Verification hook (compiled only with `--cfg nomt_verif`): the real `LeafCache` driven call by call over
+/// leaves that carry a 64-bit tag in their first 8 bytes; contents and LRU order exposed.
+#[cfg(nomt_verif)]
+pub(crate) mod verif {
+    use super::{LeafCache, LeafNode, PageNumber};
+    use crate::io::PagePool;
+    use std::sync::{Arc, RwLock};
+
+    /// What a call of the leaf cache reports to the observer, while the shard's lock is held.
+    #[derive(Debug, Clone, Copy, PartialEq, Eq)]
+    pub enum Kind {
+        /// `get(pn)`: the bytes of the resident leaf (`None` = miss).
+        Get,
+        /// `insert(pn, leaf)`: the bytes of the leaf.
+        Insert,
+        /// `evict` reaches this shard; the number is `max_items`.
+        Evict,
+    }
+
+    type Observer = Box<dyn Fn(Kind, usize, u32, Option<&[u8]>) + Send + Sync>;
+    static OBSERVER: RwLock<Option<Observer>> = RwLock::new(None);
+
+    /// Install (or remove) the process-global observer of every `LeafCache` call.
+    pub fn set_observer(observer: Option<Observer>) {
+        *OBSERVER.write().unwrap() = observer;
+    }
+
+    pub(super) fn observe(kind: Kind, shard: usize, pn: u32, bytes: Option<&[u8]>) {
+        if let Some(f) = OBSERVER.read().unwrap().as_ref() {
+            f(kind, shard, pn, bytes)
+        }
+    }
+
+    /// Reported by the two CALLERS of `LeafCache::insert` right before the call (the body of `insert` is left
+    /// untouched).
+    pub(crate) fn observe_insert(cache: &LeafCache, pn: PageNumber, node: &LeafNode) {
+        observe(
+            Kind::Insert,
+            cache.inner.shard_index_for(pn),
+            pn.0,
+            Some(&node.inner[..]),
+        )
+    }
+
+    pub struct LeafCacheSim {
+        cache: LeafCache,
+        pool: PagePool,
+    }
+
+    fn tag_of(node: &LeafNode) -> u64 {
+        let mut b = [0u8; 8];
+        b.copy_from_slice(&node.inner[0..8]);
+        u64::from_le_bytes(b)
+    }
+
+    impl LeafCacheSim {
+        /// `LeafCache::new(shards, leaf_cache_size)` (panics where it panics).
+        pub fn new(shards: usize, size_mib: usize) -> Self {
+            LeafCacheSim {
+                cache: LeafCache::new(shards, size_mib),
+                pool: PagePool::new(),
+            }
+        }
+
+        /// Overwrite `max_items` of every shard.
+        pub fn set_max_items(&mut self, max_items: usize) {
+            for shard in &self.cache.inner.shards {
+                shard.lock().max_items = max_items;
+            }
+        }
+
+        pub fn shard_count(&self) -> usize {
+            self.cache.inner.shards.len()
+        }
+
+        pub fn shard_index_for(&self, pn: u32) -> usize {
+            self.cache.inner.shard_index_for(PageNumber(pn))
+        }
+
+        pub fn get(&self, pn: u32) -> Option<u64> {
+            self.cache.get(PageNumber(pn)).map(|n| tag_of(&n))
+        }
+
+        pub fn insert(&self, pn: u32, tag: u64) {
+            let mut fat = self.pool.alloc_fat_page();
+            fat[..].fill(0);
+            fat[0..8].copy_from_slice(&tag.to_le_bytes());
+            self.cache
+                .insert(PageNumber(pn), Arc::new(LeafNode { inner: fat }));
+        }
+
+        pub fn evict(&self) {
+            self.cache.evict()
+        }
+
+        /// Per shard: `max_items` and the entries, most recently used first.
+        pub fn dump(&self) -> Vec<(usize, Vec<(u32, u64)>)> {
+            self.cache
+                .inner
+                .shards
+                .iter()
+                .map(|s| {
+                    let s = s.lock();
+                    (
+                        s.max_items,
+                        s.cache.iter().map(|(pn, n)| (pn.0, tag_of(n))).collect(),
+                    )
+                })
+                .collect()
+        }
+    }
 }
